@@ -2,7 +2,7 @@ package main
 
 // Table-function cases.
 //
-//	<id> T<op> mode=plain|proxy len=<i<hex>|-> t1=<k=v;k=v|-> [t2=..] [err=<n>] [cmp=<kind>] -- <arg> ...
+//	<id> T<op> mode=plain|proxy len=<i<hex>|-> t1=<k=v;k=v|-> [t2=..] keys=<hex,hex..> [err=<n>] [cmp=<kind>] -- <arg> ...
 //
 // args are values (i<hex>, s<hex>, n, b0, b1) or @1 / @2 (the table objects).
 // In proxy mode a table object is an empty table whose metatable forwards
@@ -29,7 +29,7 @@ import (
 const tabDriver = `
 local cases = ...
 local T = table
-local next, rawequal, setmetatable, pcall, type, error = next, rawequal, setmetatable, pcall, type, error
+local rawget, rawequal, setmetatable, pcall, type, error = rawget, rawequal, setmetatable, pcall, type, error
 local function mk(c, no, ctl)
   local back = {}
   local kv = c["t" .. no]
@@ -112,9 +112,27 @@ for k = 1, #cases do
     emit("RN", r.n)
     for i = 1, r.n do emit("r", r[i]) end
   end
-  if newt then for kk, vv in next, newt do emit("cn", kk, vv) end end
-  for kk, vv in next, b1 do emit("c1", kk, vv) end
-  if b2 then for kk, vv in next, b2 do emit("c2", kk, vv) end end
+  -- contents are probed key by key (the keys the check is interested in come with the case);
+  -- a traversal with next is avoided on purpose: it is C03's subject, not ours
+  local keys = c.keys
+  local function dumpc(tag, b)
+    for i = 1, keys.n do
+      local v = rawget(b, keys[i])
+      if v ~= nil then emit(tag, keys[i], v) end
+    end
+  end
+  if newt then
+    local nn = rawget(newt, "n")
+    emit("cn", "n", nn)
+    if type(nn) == "number" then
+      for i = 0, nn + 2 do
+        local v = rawget(newt, i)
+        if v ~= nil then emit("cn", i, v) end
+      end
+    end
+  end
+  dumpc("c1", b1)
+  if b2 then dumpc("c2", b2) end
   emit()
 end
 `
@@ -156,6 +174,17 @@ func tabCaseValue(k kase) rt.Value {
 			}
 		case "t1", "t2":
 			set(key, parseContents(val))
+		case "keys":
+			kt := rt.NewTable()
+			n := 0
+			if val != "" && val != "-" {
+				for _, h := range strings.Split(val, ",") {
+					n++
+					kt.Set(rt.IntValue(int64(n)), parseArg("i"+h))
+				}
+			}
+			kt.Set(rt.StringValue("n"), rt.IntValue(int64(n)))
+			set(key, rt.TableValue(kt))
 		case "err":
 			n, _ := strconv.ParseInt(val, 10, 64)
 			set(key, rt.IntValue(n))
